@@ -601,6 +601,20 @@ fn systematic_families(rng: &mut Rng, budget: usize) -> Vec<Call> {
             );
             out.push(Call { lang, concrete: rng.chance(1, 2), op: Op::Rewrite { text, thr: "0".into() }, crash_at: 0, reenter: 0, during_unwind: false });
         }
+        // ordered pairs of ordinals / zero words / units as consecutive single-word calls (what one call
+        // leaves behind for the next)
+        {
+            let mut cands: Vec<&'static str> = pool.ordinals.iter().chain(pool.zero.iter()).chain(pool.units.iter()).copied().collect();
+            cands.dedup();
+            for _ in 0..(per_lang / 12).max(8) {
+                let a = rng.word(&cands);
+                let b = rng.word(&cands);
+                let concrete = rng.chance(1, 2);
+                for w in [a, b] {
+                    out.push(Call { lang, concrete, op: Op::T2d { text: w.to_string() }, crash_at: 0, reenter: 0, during_unwind: false });
+                }
+            }
+        }
         // two long calls per language (positions in the hundreds)
         {
             let cfg = GenCfg::swarm(rng);
